@@ -15,6 +15,7 @@ pub mod c12;
 pub mod c13;
 pub mod c14;
 pub mod c15;
+pub mod c16;
 pub mod c18;
 pub mod c20;
 
@@ -34,6 +35,7 @@ pub fn spec(id: &str) -> Option<PropSpec> {
         "C13" => Some(c13::spec()),
         "C14" => Some(c14::spec()),
         "C15" => Some(c15::spec()),
+        "C16" => Some(c16::spec()),
         "C18" => Some(c18::spec()),
         "C20" => Some(c20::spec()),
         _ => None,
